@@ -292,3 +292,42 @@ package vegeta
 //@ lemma fold_max_commutes property C10 forall a, x, y int :: max(max(a, x), y) == max(max(a, y), x)
 //@ lemma fold_min_first_commutes property C10 forall n, m, x, y int :: n >= 0 ==>
 //@     min((n == 0 ? x : min(m, x)), y) == min((n == 0 ? y : min(m, y)), x)
+
+// ---------------------------------------------------------------------------------- C13
+
+//@ func (Decoder).Decode
+//@   inline
+
+// Rotation arithmetic: decoder k is tried at step rot(k, s, n) = (k - s) mod n of a call that starts at
+// sequence number s; the decoder tried at step t is the only one with rot == t.
+//@ spec func rot(k int, s int, n int) int
+//@ axiom forall k, s, n int :: rot(k, s, n) == emod(k - s, n)
+//@ lemma mod_add_multiple property C13
+//@   forall a, k, n int :: n > 0 && 0 <= a && a < n ==> emod(a + n*k, n) == a
+//@ lemma rot_of_tried property C13 uses mod_add_multiple
+//@   forall s, t, n int :: n > 0 && s >= 0 && 0 <= t && t < n ==> s + t == n*ediv(s + t, n) + emod(s + t, n) && rot(emod(s + t, n), s, n) == t
+//@ lemma rot_injective property C13
+//@   forall a, b, s, n int :: n > 0 && s >= 0 && 0 <= a && a < n && 0 <= b && b < n && rot(a, s, n) == rot(b, s, n) ==> a == b
+
+//@ func NewRoundRobinDecoder$1
+//@   property C13
+//@   uses rot_injective
+//@   returns (err)
+//@   requires [at-least-one] len(dec) >= 1
+//@   requires [decoders-usable] forall k int :: 0 <= k && k < len(dec) ==> dec[k] != nil && 0 <= dpos(dec[k]) && dpos(dec[k]) <= dlen(dec[k])
+//@   requires [decoders-distinct] forall a, b int :: 0 <= a && a < b && b < len(dec) ==> ref(dec[a]) != ref(dec[b])
+//@   assume   [history-length] seq + len(dec) < MaxUint64
+//@   modifies seq, *r
+//@   ghost chosen int = -1
+//@   at call Decode: ghost chosen = (result == nil ? robin : chosen) ; apply rot_of_tried(old(seq), rangeindex, len(dec))
+//@   ensures [one-record-from-one-input] err == nil ==> 0 <= chosen && chosen < len(dec)
+//@              && (forall k int :: k == chosen ==> dpos(dec[k]) == old(dpos(dec[k])) + 1 && rec(r) == ditem(dec[k], old(dpos(dec[k]))))
+//@   ensures [other-inputs-untouched] forall k int :: 0 <= k && k < len(dec) && !(err == nil && k == chosen) ==> dpos(dec[k]) == old(dpos(dec[k]))
+//@   ensures [end-only-when-all-exhausted] err != nil ==> (forall k int :: 0 <= k && k < len(dec) ==> old(dpos(dec[k])) == dlen(dec[k]))
+//@   loop 1
+//@     invariant -1 <= rangeindex && rangeindex < len(dec) && len(dec) == old(len(dec)) && seq == old(seq) + rangeindex + 1
+//@     invariant chosen == -1 && rec(r) == old(rec(r))
+//@     invariant forall k int :: 0 <= k && k < len(dec) ==> dec[k] == old(dec[k]) && dpos(dec[k]) == old(dpos(dec[k]))
+//@     invariant forall k int :: 0 <= k && k < len(dec) && rot(k, old(seq), len(dec)) <= rangeindex ==> old(dpos(dec[k])) == dlen(dec[k])
+//@     invariant rangeindex >= 0 ==> err != nil
+//@     decreases len(dec) - rangeindex
